@@ -293,6 +293,23 @@ class Hist:
         self.shadow.append("text")
         return "st:%s:%s" % (self.h(self.pick(("text", "cdata"))), off())
 
+    def deep_chain(self, depth):
+        """created elements appended one below the other: a tree deeper than any the parser accepts"""
+        ops = []
+        first = len(self.shadow)
+        for i in range(depth):
+            ops.append("ce:n")
+            self.shadow.append("elem")
+        root = [h for h in self.kids.get(0, []) if self.shadow[h] == "elem"]
+        parent = root[0] if root else 0
+        for i in range(depth):
+            ops.append("ap:%s:%s" % (self.h(parent), self.h(first + i)))
+            parent = first + i
+        ops.append("ct:leaf")
+        self.shadow.append("text")
+        ops.append("ap:%s:%s" % (self.h(parent), self.h(first + depth)))
+        return ops
+
     def history(self):
         self.gen_doc()
         n = self.r.randint(1, self.max_ops)
